@@ -292,7 +292,31 @@ def _lib_data_calc(vm, args):
             vm.globals = saved
 
 
+def _lib_array_sort(vm, args):
+    """arraySort(array[, compareFn]): CPython's list.sort on both sides, so the sequence of comparator
+    calls is the same; a comparator answer that is not a number fails the whole call."""
+    import functools
+    if not args or len(args) > 2 or not isinstance(args[0], list):
+        _fail()
+    arr = args[0]
+    fn = args[1] if len(args) > 1 else None
+    if fn is None:
+        arr.sort(key=functools.cmp_to_key(ref_compare))
+        return arr
+    if not callable(fn):
+        _fail()
+
+    def cmp(a, b):
+        r = vm.invoke(fn, [a, b])
+        if not is_num(r) and not isinstance(r, bool):
+            raise HostFailure('TypeError', 'comparator answer')
+        return r
+    arr.sort(key=functools.cmp_to_key(cmp))
+    return arr
+
+
 LIB = {
+    'arraySort': _lib_array_sort,
     'arrayNew': _lib_array_new,
     'arrayPush': _lib_array_push,
     'arrayGet': _lib_array_get,
